@@ -33,6 +33,18 @@ def run(ctx: Ctx, chk) -> None:
     # every well-formed message decodes: the field declarations carry no load-side restriction (a validator runs on
     # load only, never on dump) beyond the ranges of the statement - any integer type, any payload text (same rule as C02)
     chk.run_rule(decl1, ctx)
+    chk.run_rule(sent_is_written, ctx)
+
+
+def sent_is_written(ctx: Ctx, chk) -> None:
+    """Observed at Gateway.send vs. transport write: a message that is held for a sleeping node and written at its
+    wake is the message that was sent - the outcome analysis of C12 (OUTCOME-1: exactly one of write / park, and what
+    is parked is the message itself or a copy of all its fields)."""
+    from . import c12
+    from .common import OnlyRule
+
+    proxy = OnlyRule(chk, "OUTCOME-1", "SENT-IS-WRITTEN", " - the line written at the node's wake is then not the encoding of the message that was handed to send (a field such as the ack flag falls back to its default)", "the line the transport finally gets for a sent message is the encoding of that message: an outgoing handler writes the encoded line it was given or parks the message itself (or a copy of all its fields), never a re-built message")
+    c12.outcome1(ctx, proxy)
 
 
 def delim1(ctx: Ctx, chk) -> None:
